@@ -20,6 +20,7 @@ type PairScenario struct {
 	Pattern string         `json:"pattern"` // e.g. "abab": whose next row is fed at each step (rest appended)
 	Share   bool           `json:"share"`   // B registers the table-source handles that A's RegisterTable returned (one table object, two instances)
 	StopA   int            `json:"stop_a"`  // > 0: A is stopped after that many of its rows; B goes on and is the only one judged
+	LateB   bool           `json:"late_b"`  // B is created (New + Execute) only when its first row is due, i.e. after A has processed rows
 }
 
 // runCollect feeds rows in lock-step to a fresh instance and returns the sequence of delivered batches (abstract JSON).
@@ -193,11 +194,15 @@ func RunPair(sc PairScenario) ([]Ev, string) {
 	if sc.Share {
 		shared = pa.srcs
 	}
-	pb, e := newPairInst(sc.B, shared)
-	if e != "" {
-		pa.close()
-		return nil, e
+	var pb *pairInst
+	if !sc.LateB {
+		pb, e = newPairInst(sc.B, shared)
+		if e != "" {
+			pa.close()
+			return nil, e
+		}
 	}
+	lateErr := ""
 	ia, ib := 0, 0
 	aStopped := false
 	step := func(which byte) bool {
@@ -214,6 +219,12 @@ func RunPair(sc PairScenario) ([]Ev, string) {
 			return pa.feed(sc.A.Rows[ia-1])
 		}
 		if which == 'b' && ib < len(sc.B.Rows) {
+			if pb == nil {
+				pb, lateErr = newPairInst(sc.B, shared)
+				if lateErr != "" {
+					return false
+				}
+			}
 			ib++
 			return pb.feed(sc.B.Rows[ib-1])
 		}
@@ -228,6 +239,17 @@ func RunPair(sc PairScenario) ([]Ev, string) {
 	}
 	for ok && ib < len(sc.B.Rows) {
 		ok = step('b')
+	}
+	if lateErr != "" {
+		pa.close()
+		return nil, lateErr
+	}
+	if pb == nil { // B has no rows
+		pb, e = newPairInst(sc.B, shared)
+		if e != "" {
+			pa.close()
+			return nil, e
+		}
 	}
 	aPair, bPair := pa.close(), pb.close()
 	if !ok {
